@@ -3,6 +3,8 @@ package promise
 import (
 	"context"
 	"sync"
+
+	"github.com/aperturerobotics/util/verifhook"
 )
 
 // Once contains a function that is called concurrently once.
@@ -32,6 +34,7 @@ func (o *Once[T]) Resolve(ctx context.Context) (T, error) {
 			return empty, context.Canceled
 		}
 
+		verifhook.Point("lock-enter", o)
 		o.mtx.Lock()
 		prom := o.prom
 
@@ -43,6 +46,7 @@ func (o *Once[T]) Resolve(ctx context.Context) (T, error) {
 			go func() {
 				result, err := o.cb(ctx)
 				if err != nil {
+					verifhook.Point("lock-enter", o)
 					o.mtx.Lock()
 					if o.prom == prom {
 						o.prom = nil
